@@ -34,7 +34,8 @@ def cases(tier, seed):
 
 def gen_distribution(rng, d, allow_normal=True):
     """returns (distribution infos list, a, b, kind)"""
-    kind = rng.choice(["uniform", "uniform_mixed_bounds", "triangle", "normal"] if allow_normal else ["uniform", "uniform_mixed_bounds", "triangle"])
+    kind = rng.choice(["uniform", "uniform_mixed_bounds", "triangle", "normal", "triangle_mixed", "normal_mixed"] if allow_normal
+                      else ["uniform", "uniform_mixed_bounds", "triangle", "triangle_mixed"])
     if kind == "uniform":
         lo = rng.choice([0.0, -1.0, rng.uniform(-3, 3)])
         hi = lo + rng.choice([1.0, 2.0, rng.uniform(0.2, 5)])
@@ -48,8 +49,24 @@ def gen_distribution(rng, d, allow_normal=True):
         hi = lo + rng.choice([1.0, rng.uniform(0.5, 4)])
         m = lo + rng.uniform(0.15, 0.85) * (hi - lo)
         return [("Triangle", float(m)) for _ in range(d)], [lo] * d, [hi] * d, kind
+    if kind == "triangle_mixed":   # same family and bounds, different parameters per dimension
+        lo = rng.choice([0.0, rng.uniform(-2, 2)])
+        hi = lo + rng.choice([1.0, 2.0, rng.uniform(0.5, 4)])
+        return [("Triangle", float(lo + rng.uniform(0.15, 0.85) * (hi - lo))) for _ in range(d)], [lo] * d, [hi] * d, "triangle"
+    if kind == "normal_mixed":
+        return [("Normal", float(rng.uniform(-2, 2)), float(rng.uniform(0.3, 3))) for _ in range(d)], [-np.inf] * d, [np.inf] * d, "normal"
     mu, sigma = rng.uniform(-2, 2), rng.uniform(0.3, 3)
     return [("Normal", float(mu), float(sigma)) for _ in range(d)], [-np.inf] * d, [np.inf] * d, kind
+
+
+def reference_distribution(info, lo, hi):
+    """independent scipy.stats object for a distribution description (never the library's own distribution objects)"""
+    from scipy import stats
+    if info[0] == "Uniform":
+        return stats.uniform(loc=lo, scale=hi - lo)
+    if info[0] == "Triangle":
+        return stats.triang(c=(info[1] - lo) / (hi - lo), loc=lo, scale=hi - lo)
+    return stats.norm(loc=info[1], scale=info[2])
 
 
 def run_grid(case, res):
@@ -57,10 +74,12 @@ def run_grid(case, res):
     from sparseSpACE.GridOperation import UncertaintyQuantification
     from sparseSpACE.Function import ConstantValue
     rng = random.Random(case["seed"])
-    d = rng.choice([1, 1, 2])
+    d = rng.choice([1, 1, 2, 2, 3])
     infos, a, b, kind = gen_distribution(rng, d)
     boundary = False if kind == "normal" else rng.random() < 0.5
     an, bn = np.array(a, dtype=float), np.array(b, dtype=float)
+    if len(set(infos)) > 1:
+        res.count("mixed_parameters_same_bounds")
     with contextlib.redirect_stdout(io.StringIO()):
         op = UncertaintyQuantification(ConstantValue(1.0), list(infos), an, bn)
         grid = G.GlobalTrapezoidalGridWeighted(an, bn, op, boundary=boundary)
@@ -85,6 +104,11 @@ def run_grid(case, res):
         tol = 1e-4 if boundary else 1e-12
         res.close("weights_sum_to_one", float(np.sum(w)), 1.0, tol, "C15_weight_sum:%s:%s" % (kind, "boundary" if boundary else "no_boundary"),
                   "1-D weights of dimension %d (%s) sum to %r" % (k, kind, float(np.sum(w))), dict(cfg, dim=k, weights=w[:12]))
+        if boundary and kind != "normal":
+            # the weights integrate the piecewise linear interpolant against the density of THIS dimension: sum w_i x_i = E[x_k]
+            refd = reference_distribution(infos[k], a[k], b[k])
+            res.close("first_moment", float(np.sum(w * np.asarray(pts[k]))), float(refd.mean()), 1e-2 * (b[k] - a[k]),
+                      "C15_first_moment:" + kind, "sum w_i x_i of dimension %d differs from the mean of %r" % (k, infos[k]), dict(cfg, dim=k))
         if kind.startswith("uniform"):
             ref = rm.trapezoid_weights(pts[k]) / (b[k] - a[k])
             if boundary:
@@ -114,7 +138,7 @@ def run_grid(case, res):
         with contextlib.redirect_stdout(io.StringIO()):
             mid = grid.get_mid_point(x1, x2, k)
         res.check("midpoint_inside", x1 < mid < x2, "C15_midpoint_outside:" + kind, "get_mid_point(%r,%r) = %r is not strictly inside" % (x1, x2, mid), cfg)
-        cdf = dists[k].cdf
+        cdf = reference_distribution(infos[k], a[k], b[k]).cdf
         pl, pr = float(cdf(mid)) - float(cdf(x1)), float(cdf(x2)) - float(cdf(mid))
         if pl + pr > 1e-9:
             res.close("midpoint_equal_probability", pl, pr, 1e-9, "C15_midpoint_unequal_probability:" + kind,
@@ -162,18 +186,28 @@ def run_run(case, res):
         err = ErrorCalculatorSingleDimVolumeGuided() if profile == "real" else hooks.RandErr(case["seed"], profile, d, a, b)
         r = combi.performSpatiallyAdaptiv(1, lmax, err, tol=-1.0, max_evaluations=maxev, print_output=False, do_plot=False)
         E, V = op.calculate_expectation_and_variance(combi)
-    E, V = np.asarray(E, dtype=float), np.asarray(V, dtype=float)
-    mom2 = V + E * E
-    scale = (abs(mom2[0]) + E[0] ** 2 + 1e-300)
-    res.close("expectation_affine", E[1], c_ * E[0] + e_, 1e-10 * (abs(c_) * abs(E[0]) + abs(e_) + 1e-300) * 4 + 1e-12,
-              "C15_expectation_not_affine:" + kind, "E[c g + e] = %r but c E[g] + e = %r" % (E[1], c_ * E[0] + e_), cfg)
-    # Var[c g + e] is computed as mom2 - E^2 with mom2 ~ (c g + e)^2: conditioning ~ (c^2 mom2_g + e^2)
-    vscale = (c_ * c_ * abs(mom2[0]) + 2 * abs(c_ * e_ * E[0]) + e_ * e_ + 1e-300)
-    res.close("variance_affine", V[1], c_ * c_ * V[0], 1e-10 * vscale * 4, "C15_variance_not_quadratic:" + kind,
-              "Var[c g + e] = %r but c^2 Var[g] = %r" % (V[1], c_ * c_ * V[0]), cfg)
-    res.check("variance_nonnegative", bool(np.all(V >= 0)), "C15_negative_variance", "negative variance %s" % V, cfg)
-    res.close("constant_model", [E[2], V[2]], [const, 0.0], [1e-10 * max(1.0, abs(const)), 1e-10 * max(1.0, const * const)],
-              "C15_constant_model:" + kind, "constant model: E=%r (const %r), Var=%r" % (E[2], const, V[2]), cfg)
+        E, V = np.array(E, dtype=float), np.array(V, dtype=float)
+        # reading the moments is a pure observation: asking again (no refinement in between) gives the same numbers
+        reads = [(E, V)]
+        for rep in range(2):
+            E2, V2 = op.calculate_expectation_and_variance(combi)
+            reads.append((np.array(E2, dtype=float), np.array(V2, dtype=float)))
+    for rep, (E, V) in enumerate(reads):
+        E, V = np.asarray(E, dtype=float), np.asarray(V, dtype=float)
+        tag = "" if rep == 0 else ":repeated_readout"
+        mom2 = V + E * E
+        res.close("expectation_affine", E[1], c_ * E[0] + e_, 1e-10 * (abs(c_) * abs(E[0]) + abs(e_) + 1e-300) * 4 + 1e-12,
+                  "C15_expectation_not_affine:" + kind + tag, "read-out #%d: E[c g + e] = %r but c E[g] + e = %r" % (rep + 1, E[1], c_ * E[0] + e_), cfg)
+        # Var[c g + e] is computed as mom2 - E^2 with mom2 ~ (c g + e)^2: conditioning ~ (c^2 mom2_g + e^2)
+        vscale = (c_ * c_ * abs(mom2[0]) + 2 * abs(c_ * e_ * E[0]) + e_ * e_ + 1e-300)
+        res.close("variance_affine", V[1], c_ * c_ * V[0], 1e-10 * vscale * 4, "C15_variance_not_quadratic:" + kind + tag,
+                  "read-out #%d: Var[c g + e] = %r but c^2 Var[g] = %r" % (rep + 1, V[1], c_ * c_ * V[0]), cfg)
+        res.check("variance_nonnegative", bool(np.all(V >= 0)), "C15_negative_variance" + tag, "negative variance %s" % V, cfg)
+        res.close("constant_model", [E[2], V[2]], [const, 0.0], [1e-10 * max(1.0, abs(const)), 1e-10 * max(1.0, const * const)],
+                  "C15_constant_model:" + kind + tag, "read-out #%d constant model: E=%r (const %r), Var=%r" % (rep + 1, E[2], const, V[2]), cfg)
+        if rep:
+            res.count("repeated_readouts")
+    E, V = reads[0]
     npts = len(r[6])
     res.hash = digest([cfg, npts])
     res.nontrivial = kind != "uniform" or npts >= 3
